@@ -251,6 +251,41 @@ func checkC16(w *Worker) {
 		}
 		cell(x, cfgLoc, 5, flagSet, envSet, cfgSet, flagVal, envVal)
 	})
+	// the current date from the configuration file, written with a time of day and a zone offset: it is still that date
+	// (observed through the "Today:" line of stats; keyword periods under such a value are not asserted - the pinned tree
+	// compares the instant, and no property says what a time of day in Now means for them)
+	w.Explore("config-now-with-time-of-day-and-zone", ExploreOpts{ShardDepth: 2}, func(x *Exec) {
+		now := []string{"2001-04-05T00:00:00Z", "2001-04-05T10:00:00-05:00", "2001-04-05T03:00:00+05:00", "2001-04-05T23:30:00Z", "2001-04-05T00:30:00+14:00", "2001-04-05T23:59:59-12:00"}[x.Choose(6, "input:now")]
+		loc := x.Choose(3, "input:config-location")
+		tz := []int{0, -8 * 3600, 9 * 3600}[x.Choose(3, "env:tz")]
+		files := map[string]string{"food.yaml": chainBook(4, 1), "log.yaml": "2001/04/04:\n  r: 1\n2001/04/06:\n  r: 2\n"}
+		c := appCase{Args: []string{"--no-color"}, Files: files, Mod: patchDefault, Env: map[string]string{}, TZ: tz}
+		cfg := "[Global]\nNow=" + now + "\n"
+		switch loc {
+		case 0:
+			files["home/.hranoprovod/config"] = cfg
+		case 1:
+			files["n.cfg"] = cfg
+			c.Args = append(c.Args, "--config", "n.cfg")
+		default:
+			files["n.cfg"] = cfg
+			c.Env["HR_CONFIG"] = "n.cfg"
+		}
+		c.Args = append(c.Args, "stats")
+		r := runApp(c)
+		x.Obs(r.Key())
+		x.Case(fmt.Sprint(now, loc, tz), true)
+		today := ""
+		for _, l := range strings.Split(r.Stdout+"\n"+r.AppOut, "\n") {
+			if strings.Contains(l, "Today:") {
+				today = strings.TrimSpace(strings.SplitN(l, "Today:", 2)[1])
+			}
+		}
+		if r.Failed || today != "2001/04/05" {
+			x.Violate("C16|current-date-from-config-with-zone", fmt.Sprintf("`%s` (process zone offset %ds): the configuration file says Now=%s, stats shows Today: %q\n%s", c.shell(), tz, now, today, r.String()),
+				map[string]interface{}{"cmd": c.shell(), "now": now, "observed": r.String()})
+		}
+	})
 	// explicit configuration file that does not exist is an error; one that exists is loaded
 	w.Explore("explicit-config-file", ExploreOpts{ShardDepth: 2}, func(x *Exec) {
 		how := x.Choose(3, "input:how") // --config / HR_CONFIG / -c
